@@ -206,7 +206,103 @@ def rule_sizes(rep, prog):
 def rule_range_form(rep, prog):
     """R9.3 / R16.4: first = POS/RATIO, last = LAST/RATIO with LAST = POS (+sat) (COUNT-1), RangeInclusive(first,last),
     COUNT != 0 dominates, both arms index the loop variable."""
-    b = prog.one(adt=BITMAP, name="set_reset_addr_range")
+    # the bodies that turn a byte range into a page range are found by what they do — a method of the bitmap that builds an inclusive
+    # range — not by name: the private helper behind set_addr_range / reset_addr_range may be renamed, take the update as a closure, or be
+    # merged into the two public entries
+    bodies = range_bodies(prog)
+    if not bodies:
+        rep("R9.3.range_form", BITMAP, False, "", "no method of the bitmap builds an inclusive page range (an exclusive range or another loop form cannot "
+            "express 'last page of the last byte')")
+        return False
+    res = [_range_form_of(rep, prog, b) for b in bodies]
+    rule_polarity(rep, prog, bodies)
+    return all(res)
+
+
+def range_bodies(prog):
+    return [x for x in prog.bodies if x.self_adt == BITMAP and x.kind != "Closure" and not x.j.get("impl_derived")
+            and any(canon(c.target or "").endswith("RangeInclusive::new") for c in x.calls())]
+
+
+def _const_bool_args(c, callee):
+    out = {}
+    for i, a in enumerate(c.args()):
+        a = deep_strip(a)
+        if a[0] == 'const' and a[1] in (0, 1, True, False) and i + 1 <= callee.arg_count and callee.local_ty(i + 1).s == "bool":
+            out[i + 1] = bool(a[1])
+    return out
+
+
+def _rmw_kinds(prog, b, consts, depth=0, seen=None):
+    """kinds ('set' / 'clear' / other) of the atomic read-modify-write operations that can execute in b — its closures included — when its
+    bool parameters have the constant values `consts` (an operation whose dominating branch facts contradict them cannot), following
+    calls to other methods of the bitmap with the constants they are given"""
+    from .c08 import ATOMIC
+    seen = seen if seen is not None else set()
+    key = (b.id, tuple(sorted(consts.items())))
+    if key in seen or depth > 3:
+        return []
+    seen.add(key)
+    out = []
+    for fb in prog.family(b):
+        for c in fb.calls():
+            if fb is b and consts:
+                dead = False
+                for r in b.facts_at(c.pos):
+                    if r[0] == 'bool':
+                        t = deep_strip(r[1])
+                        if t[0] == 'param' and t[1] in consts and bool(r[2]) != consts[t[1]]:
+                            dead = True
+                    if r[0] == 'cmp' and r[1] in ('Eq', 'Ne'):
+                        t, k = deep_strip(r[2]), deep_strip(r[3])
+                        if t[0] == 'param' and t[1] in consts and k[0] == 'const' and k[1] in (0, 1):
+                            holds = (consts[t[1]] == bool(k[1])) == (r[1] == 'Eq')
+                            if not holds:
+                                dead = True
+                if dead:
+                    continue
+            m = ATOMIC.match(c.callee or "")
+            if m:
+                op = m.group(2)
+                if op == "fetch_or":
+                    out.append(("set", c))
+                elif op == "fetch_and":
+                    out.append(("clear", c))
+                elif op in ("swap", "store", "fetch_xor", "fetch_nand", "fetch_add", "fetch_sub", "compare_exchange", "compare_exchange_weak", "fetch_update"):
+                    out.append((op, c))
+                continue
+            tb = prog.by_id.get(c.target) if c.target else None
+            if tb is not None and tb.self_adt == BITMAP and tb.kind != "Closure" and tb is not b:
+                out += _rmw_kinds(prog, tb, _const_bool_args(c, tb), depth + 1, seen)
+    return out
+
+
+def rule_polarity(rep, prog, range_bodies=()):
+    """R9.6: marking sets, clearing clears. Every atomic read-modify-write that can execute under set_addr_range / set_bit is a
+    fetch_or, under reset_addr_range / reset_bit a fetch_and; a helper shared by both (selected by a bool or a closure) is followed with the
+    constant it is called with, so swapping its arms — or passing the wrong constant — is a polarity error of the public entry."""
+    for nm, want in (("set_addr_range", "set"), ("reset_addr_range", "clear"), ("set_bit", "set"), ("reset_bit", "clear")):
+        for b in prog.find(adt=BITMAP, name=nm):
+            ks = _rmw_kinds(prog, b, {})
+            kinds = sorted({k for k, _c in ks})
+            ok = kinds == [want]
+            rep("R9.6.polarity", b.key, ok, b.where(),
+                f"read-modify-write operations that can execute here: {kinds or 'none found'}; required: only `{want}` "
+                f"({'fetch_or' if want == 'set' else 'fetch_and'}) — a {nm} that {'clears' if want == 'set' else 'sets'} (or does nothing) reports the wrong pages")
+            if nm in ("set_addr_range", "reset_addr_range") and range_bodies:
+                # the entry is a range body itself, or hands its own (start, len) to one
+                direct = b in range_bodies
+                fwd = False
+                for c in b.calls():
+                    tb = prog.by_id.get(c.target) if c.target else None
+                    if tb in range_bodies and len(c.args()) >= 3:
+                        a = [deep_strip(x) for x in c.args()]
+                        fwd = a[1][:2] == ('param', 2) and a[2][:2] == ('param', 3)
+                rep("R9.6.entry_reaches_range", b.key, direct or fwd, b.where(),
+                    "the public entry converts its own (start_addr, len) into the page range (itself, or by handing exactly those two to the range helper)")
+
+
+def _range_form_of(rep, prog, b):
     rng = None
     rpos = None
     for c in b.calls():
